@@ -3,12 +3,14 @@
     way its fields are computed from the proof record [account_of_record], the JSON names of the proof record, the
     "exactly one storage proof" constant and the slot index constants.
 
-    Shape: generic lemma ([rlp_account_of_sem_expected]) + decidable side condition on the regenerated terms
-    ([schema_ok], evaluated by [vm_compute]).  A harmless rewrite of the Go code (renamed ProofAccount fields or
+    Shape: generic lemma ([rlp_account_of_sem_expected]) + decidable side conditions on the regenerated terms
+    ([json_ok], [account_ok], [storage_proof_count_ok], [slot_constants_ok], evaluated by [vm_compute]; one per item).
+    This file does not depend on Gen/: the side conditions are evaluated on the regenerated terms in
+    Props/C08_schema_{json,account,count,consts}.v, ONE FILE PER ITEM, so that an item the translator could not
+    determine breaks exactly the obligations that read it and nothing else.  A harmless rewrite of the Go code (renamed ProofAccount fields or
     local variables, reordered JSON struct fields, unkeyed literal) re-checks; a harmful one (swapped account
-    fields, another conversion, renamed JSON tag, other constant) makes [schema_ok] compute to [false]. *)
+    fields, another conversion, renamed JSON tag, other constant) makes the corresponding condition compute to [false]. *)
 From Teleport Require Import Base.Bytes Base.Outcome Model.EvmProof Proofs.EvmProofRlp.
-From Teleport Require Gen.EvmProofSchemaGen.
 Local Open Scope N_scope.
 
 (** the value of a proof-record field, by its Go name *)
@@ -129,49 +131,29 @@ Proof.
   rewrite !andb_true_iff. intros [[[E1 E2] E3] E]. apply bytes_eqb_eq in E1, E2, E3. subst. rewrite (IH b E). reflexivity.
 Qed.
 
-Definition client_schema_ok (proof_fields sr_fields acct_fields wiring : list (bytes * bytes * bytes))
-           (count idx len : N) : bool :=
+(** one obligation per regenerated item, so that an item the translator could not determine (an "unknown" wiring entry,
+    a 0 constant, an empty field list) fails exactly the obligation that reads it *)
+Definition json_schema_ok (proof_fields sr_fields : list (bytes * bytes * bytes)) : bool :=
   pairs_eqb (json_set proof_fields) expected_proof_json &&
-  pairs_eqb (json_set sr_fields) expected_storage_result_json &&
-  match schema_sem acct_fields wiring with Some s => sem_eqb s expected_sem | None => false end &&
-  (count =? 1) && (idx =? 208) && (len =? 32).
+  pairs_eqb (json_set sr_fields) expected_storage_result_json.
 
-Import Gen.EvmProofSchemaGen.
+Definition account_schema_ok (acct_fields wiring : list (bytes * bytes * bytes)) : bool :=
+  match schema_sem acct_fields wiring with Some s => sem_eqb s expected_sem | None => false end.
 
-Definition schema_ok : bool :=
-  match evmproof_translator_errors with [] => true | _ => false end &&
-  client_schema_ok eth_Proof_fields eth_StorageResult_fields eth_ProofAccount_fields eth_account_wiring
-                   eth_storage_proof_count eth_paramsIndex eth_paramsLenght &&
-  client_schema_ok bsc_Proof_fields bsc_StorageResult_fields bsc_ProofAccount_fields bsc_account_wiring
-                   bsc_storage_proof_count bsc_paramsIndex bsc_paramsLenght.
-
-Lemma schema_ok_true : schema_ok = true.
-Proof. vm_compute. reflexivity. Qed.
-
-(** the account encoding of the model IS the interpretation of the regenerated struct schema and wiring *)
-Lemma account_encoding_from_go_source :
-  (exists s, schema_sem eth_ProofAccount_fields eth_account_wiring = Some s /\
-             forall r, rlp_account_of_sem s r = Some (rlp_account (account_of_record r))) /\
-  (exists s, schema_sem bsc_ProofAccount_fields bsc_account_wiring = Some s /\
-             forall r, rlp_account_of_sem s r = Some (rlp_account (account_of_record r))).
+(** the account encoding of the model IS the interpretation of any schema + wiring that passes the side condition *)
+Lemma account_encoding_generic acct_fields wiring :
+  account_schema_ok acct_fields wiring = true ->
+  exists s, schema_sem acct_fields wiring = Some s /\
+            forall r, rlp_account_of_sem s r = Some (rlp_account (account_of_record r)).
 Proof.
-  split.
-  - destruct (schema_sem eth_ProofAccount_fields eth_account_wiring) as [s|] eqn:E; [|vm_compute in E; discriminate].
-    exists s. split; [reflexivity|]. intro r.
-    assert (Q : sem_eqb s expected_sem = true).
-    { assert (X : Some s = schema_sem eth_ProofAccount_fields eth_account_wiring) by (symmetry; exact E).
-      vm_compute in X. inversion X. reflexivity. }
-    rewrite (sem_eqb_eq _ _ Q). apply rlp_account_of_sem_expected.
-  - destruct (schema_sem bsc_ProofAccount_fields bsc_account_wiring) as [s|] eqn:E; [|vm_compute in E; discriminate].
-    exists s. split; [reflexivity|]. intro r.
-    assert (Q : sem_eqb s expected_sem = true).
-    { assert (X : Some s = schema_sem bsc_ProofAccount_fields bsc_account_wiring) by (symmetry; exact E).
-      vm_compute in X. inversion X. reflexivity. }
-    rewrite (sem_eqb_eq _ _ Q). apply rlp_account_of_sem_expected.
+  unfold account_schema_ok. destruct (schema_sem acct_fields wiring) as [s|]; [|discriminate].
+  intro Q. exists s. split; [reflexivity|]. intro r. rewrite (sem_eqb_eq _ _ Q). apply rlp_account_of_sem_expected.
 Qed.
 
-(** the slot padding of the model is [common.LeftPadBytes(big.NewInt(paramsIndex).Bytes(), paramsLenght)] *)
-Lemma pad_from_go_source :
-  pad32_208 = zeros (N.to_nat eth_paramsLenght - length (be_min eth_paramsIndex)) ++ be_min eth_paramsIndex /\
-  pad32_208 = zeros (N.to_nat bsc_paramsLenght - length (be_min bsc_paramsIndex)) ++ be_min bsc_paramsIndex.
-Proof. vm_compute. split; reflexivity. Qed.
+(** [common.LeftPadBytes(big.NewInt(idx).Bytes(), len)] *)
+Definition slot_pad (idx len : N) : bytes := zeros (N.to_nat len - length (be_min idx)) ++ be_min idx.
+
+Lemma slot_pad_generic idx len : (idx =? 208) && (len =? 32) = true -> pad32_208 = slot_pad idx len.
+Proof.
+  rewrite andb_true_iff. intros [A B]. apply N.eqb_eq in A, B. subst. vm_compute. reflexivity.
+Qed.
